@@ -13,7 +13,8 @@
 //!
 //! A case: {"id", "ep", "hex" (input bytes), "dict" (TLA-flavoured pairs, entry points that take a stream
 //! dictionary), "tmo_ms", "req_limit" (largest single allocation request the worker's allocator grants),
-//! "want_dig" (digest of the loaded document, for the drift note), "skip"}.
+//! "want_dig" (digest of the loaded document, for the drift note), "reps" (repetition blocks the worker multiplies:
+//! [first, last, unit length, n]), "stack_kb", "skip"}.
 //! Entry points (ep): load, incload, content, cmap, onebyte, filter, objstm, xrefstm, textstr, png.
 use lopdf::content::Content;
 use lopdf::{Dictionary, Document, IncrementalDocument, Object, ObjectStream, Stream, StringFormat};
@@ -358,7 +359,27 @@ fn worker_case(line: &str) -> String {
     };
     let id = case["id"].clone();
     let ep = case["ep"].as_str().unwrap_or("").to_string();
-    let bytes = unhex(case["hex"].as_str().unwrap_or(""));
+    let mut bytes = unhex(case["hex"].as_str().unwrap_or(""));
+    // repetition blocks written by the Adversary as a few copies: [first, last (1-based), unit length, n] -> n copies
+    if let Some(reps) = case.get("reps").and_then(Value::as_array) {
+        let mut rs: Vec<(usize, usize, usize, usize)> = reps
+            .iter()
+            .map(|r| (r[0].as_u64().unwrap_or(1) as usize, r[1].as_u64().unwrap_or(0) as usize, r[2].as_u64().unwrap_or(1) as usize, r[3].as_u64().unwrap_or(1) as usize))
+            .collect();
+        rs.sort_by(|a, b| b.0.cmp(&a.0));
+        for (s0, e0, ulen, n) in rs {
+            if s0 >= 1 && e0 <= bytes.len() && s0 + ulen <= e0 + 1 && ulen > 0 {
+                let unit = bytes[s0 - 1..s0 - 1 + ulen].to_vec();
+                let mut nb = Vec::with_capacity(bytes.len() + unit.len() * n);
+                nb.extend_from_slice(&bytes[..s0 - 1]);
+                for _ in 0..n {
+                    nb.extend_from_slice(&unit);
+                }
+                nb.extend_from_slice(&bytes[e0..]);
+                bytes = nb;
+            }
+        }
+    }
     let dict = case.get("dict").cloned().unwrap_or(json!([]));
     let want_dig = case["want_dig"].as_bool().unwrap_or(false);
     let req_limit = case["req_limit"].as_u64().unwrap_or(u64::MAX >> 1) as usize;
@@ -603,7 +624,7 @@ fn run(args: &[String]) {
     let mut out = NdjsonOut::create(&arg(args, "--out").unwrap());
     for (i, r) in results.into_inner().unwrap().into_iter().enumerate() {
         // h: identity of the input (entry point + bytes + dictionary), for counting distinct inputs
-        let h = fnv(format!("{}|{}|{}", recs[i]["ep"], recs[i]["hex"], recs[i]["dict"]).as_bytes());
+        let h = fnv(format!("{}|{}|{}|{}", recs[i]["ep"], recs[i]["hex"], recs[i]["dict"], recs[i].get("reps").unwrap_or(&Value::Null)).as_bytes());
         match r {
             Some(mut v) => {
                 v["h"] = json!(h);
